@@ -13,6 +13,9 @@ from .classtable import ClassInfo, FuncInfo
 from . import axioms
 
 MAX_RUNS = 400
+FUNC_BUDGET_S = float(os.environ.get('PYVC_FUNC_BUDGET', '90'))
+import sys
+sys.setrecursionlimit(20000)
 
 
 class FunctionReport:
@@ -76,7 +79,10 @@ def verify_contract(eng, c, prop, self_cls=None, skip_ids=None):
             rep.runs += 1
             if rep.runs > MAX_RUNS:
                 raise Unsupported("too many paths")
+            if time.time() - t0 > FUNC_BUDGET_S:
+                raise Unsupported(f"symbolic execution budget of {FUNC_BUDGET_S}s exceeded")
             run = Run(eng, prefix)
+            run.deadline = t0 + FUNC_BUDGET_S
             eng.run = run
             run.fkey = f"{prop}/{key}" + (f"[{self_cls.name}]" if self_cls is not None and fi.cls is not None and self_cls is not fi.cls else "")
             run.prop = prop
@@ -103,8 +109,13 @@ def verify_contract(eng, c, prop, self_cls=None, skip_ids=None):
         rep.status = "unsupported"
         rep.reason = "recursion limit in executor"
     except Exception as ex:
-        rep.status = "error"
-        rep.reason = f"{type(ex).__name__}: {ex}\n{traceback.format_exc()}"
+        # an internal failure while executing *this* function is never a verdict: the function
+        # falls back to its bounded stand-in; obligations generated so far are kept
+        rep.status = "unsupported"
+        rep.reason = f"internal error {type(ex).__name__}: {str(ex)[:200]}"
+        rep.internal_error = traceback.format_exc()[-1500:]
+        if os.environ.get("PYVC_DEBUG"):
+            traceback.print_exc()
     # stable numbering of same-named obligations (per path)
     counts = {}
     for o in rep.obligations:
